@@ -356,9 +356,9 @@ func runC19(r *core.Run) {
 	if !r.Quick() {
 		tools = append(tools, "go1.26.8")
 	}
-	np := r.N(100, 400)
+	np := r.N(100, 1200)
 	mism := []string{"delete", "truncate", "shift", "arity", "syntax", "directory", "symlink", "empty", "other-package", "arity-int", "arity-less", "mutated-trace", "mutated-trace", "arity-int", "older-short", "older-exact", "older-long", "older-short", "older-exact"}
-	nm := r.N(76, 1200)
+	nm := r.N(76, 3000)
 	type job struct{ c c19Case }
 	var jobs []c19Case
 	for _, t := range tools {
